@@ -1498,6 +1498,134 @@ def propagate_path_aliases(repo, f):
     return changed
 
 
+def propagate_record_locals(repo, f):
+    """t = K(a, b, c)   (t bound once; K a plain NamedTuple / dataclass record of the repository; arguments are names / paths / constants)
+    ->  t.field reads the bound argument; for a NamedTuple also t[i], `for x in t`, `x, y, z = t`, tuple(t), *t.
+    The construction stays if t is still mentioned (passed on, returned, method called on it)."""
+    from .normalize import record_fields
+    changed = False
+    binds = {}
+    for x in ast.walk(f.node):
+        if isinstance(x, ast.Name) and isinstance(x.ctx, (ast.Store, ast.Del)):
+            binds[x.id] = binds.get(x.id, 0) + 1
+    a = f.node.args
+    params = {p.arg for p in a.posonlyargs + a.args + a.kwonlyargs}
+    for st in list(walk_own(f.node)):
+        if not (isinstance(st, ast.Assign) and len(st.targets) == 1 and isinstance(st.targets[0], ast.Name) and isinstance(st.value, ast.Call) and isinstance(st.value.func, ast.Name)):
+            continue
+        t = st.targets[0].id
+        if binds.get(t) != 1 or t in params:
+            continue
+        rec = st.value
+        fields = record_fields(repo, f.mod, rec.func.id, allow_methods=True)
+        if fields is None or any(isinstance(x, ast.Starred) for x in rec.args) or any(k.arg is None for k in rec.keywords) or len(rec.args) + len(rec.keywords) != len(fields):
+            continue
+        vals = dict(zip(fields, rec.args))
+        vals.update({k.arg: k.value for k in rec.keywords})
+        if set(vals) != set(fields) or not all(_cheap(v) or _const(v) for v in vals.values()):
+            continue
+        # the arguments must keep their value between the construction and the reads: plain names bound once / parameters / paths on them
+        stable = True
+        for v in vals.values():
+            for x in ast.walk(v):
+                if isinstance(x, ast.Name) and binds.get(x.id, 0) > 1:
+                    stable = False
+        cq = repo.chase(f.mod, rec.func.id)
+        cn = repo.classes[cq]
+        is_nt = any(U(b) in ("NamedTuple", "typing.NamedTuple") for b in cn.bases)
+        par = {}
+        for n in ast.walk(f.node):
+            for c in ast.iter_child_nodes(n):
+                par[c] = n
+        # a dataclass instance may be mutated: no attribute store on t and no escape
+        uses = [x for x in ast.walk(f.node) if isinstance(x, ast.Name) and x.id == t and isinstance(x.ctx, ast.Load)]
+        if not stable:
+            continue
+        if not is_nt:
+            if any(not (isinstance(par.get(u), ast.Attribute) and par[u].value is u and isinstance(par[u].ctx, ast.Load) and par[u].attr in fields) for u in uses):
+                continue
+        disp = lambda: ast.Tuple(elts=[copy.deepcopy(vals[fl]) for fl in fields], ctx=ast.Load())
+
+        class RW(ast.NodeTransformer):
+            hit = False
+
+            def visit_Attribute(self, n):
+                self.generic_visit(n)
+                if isinstance(n.value, ast.Name) and n.value.id == t and isinstance(n.ctx, ast.Load) and n.attr in fields:
+                    RW.hit = True
+                    return copy.deepcopy(vals[n.attr])
+                return n
+
+            def visit_Subscript(self, n):
+                self.generic_visit(n)
+                if is_nt and isinstance(n.value, ast.Name) and n.value.id == t and isinstance(n.ctx, ast.Load) and isinstance(n.slice, ast.Constant) and isinstance(n.slice.value, int) \
+                        and -len(fields) <= n.slice.value < len(fields):
+                    RW.hit = True
+                    return copy.deepcopy(vals[fields[n.slice.value]])
+                return n
+
+            def visit_For(self, n):
+                self.generic_visit(n)
+                if is_nt and isinstance(n.iter, ast.Name) and n.iter.id == t:
+                    n.iter = disp()
+                    RW.hit = True
+                return n
+
+            def visit_comprehension(self, n):
+                self.generic_visit(n)
+                if is_nt and isinstance(n.iter, ast.Name) and n.iter.id == t:
+                    n.iter = disp()
+                    RW.hit = True
+                return n
+
+            def visit_Assign(self, n):
+                self.generic_visit(n)
+                if is_nt and isinstance(n.value, ast.Name) and n.value.id == t and len(n.targets) == 1 and isinstance(n.targets[0], (ast.Tuple, ast.List)) \
+                        and len(n.targets[0].elts) == len(fields) and not any(isinstance(x, ast.Starred) for x in n.targets[0].elts):
+                    n.value = disp()
+                    RW.hit = True
+                return n
+
+            def visit_Call(self, n):
+                self.generic_visit(n)
+                if is_nt and isinstance(n.func, ast.Name) and n.func.id in ("tuple", "list") and len(n.args) == 1 and isinstance(n.args[0], ast.Name) and n.args[0].id == t and not n.keywords:
+                    RW.hit = True
+                    d = disp()
+                    return d if n.func.id == "tuple" else ast.copy_location(ast.List(elts=d.elts, ctx=ast.Load()), n)
+                return n
+
+            def visit_Starred(self, n):
+                self.generic_visit(n)
+                if is_nt and isinstance(n.value, ast.Name) and n.value.id == t and isinstance(n.ctx, ast.Load):
+                    n.value = disp()
+                    RW.hit = True
+                return n
+        RW.hit = False
+        f.node = RW().visit(f.node)
+        if RW.hit:
+            changed = True
+            if not any(isinstance(x, ast.Name) and x.id == t and isinstance(x.ctx, ast.Load) for x in ast.walk(f.node)):
+                # nothing mentions t any more: the construction (of cheap arguments, into a plain record) can go
+                def strip(stmts):
+                    out = []
+                    for s_ in stmts:
+                        if s_ is st:
+                            continue
+                        for fld in ("body", "orelse", "finalbody"):
+                            sub = getattr(s_, fld, None)
+                            if isinstance(sub, list) and sub and isinstance(sub[0], ast.stmt) and not isinstance(s_, (ast.FunctionDef, ast.ClassDef)):
+                                setattr(s_, fld, strip(sub) or [ast.Pass()])
+                        if isinstance(s_, ast.Try):
+                            for h in s_.handlers:
+                                h.body = strip(h.body) or [ast.Pass()]
+                        out.append(s_)
+                    return out
+                f.node.body = strip(f.node.body)
+    if changed:
+        ast.fix_missing_locations(f.node)
+    return changed
+
+
 def sink_appends(fnode, counter):
     """if c: ...; L.append(a); ...  else: ...; L.append(b); ...   (each arm of the if / elif chain appends to L exactly once, at the
     arm's top level, and does not mention L otherwise)  ->  the arms bind a temporary instead and ONE append follows the statement.
@@ -2118,6 +2246,9 @@ def partial_evaluate(repo, max_rounds=8):
             if (steps or q in getattr(repo, "inlined", {})) and scalarise_display_locals(f, counter):
                 ch = True
                 steps.append("displays")
+            if (steps or q in getattr(repo, "inlined", {})) and propagate_record_locals(repo, f):
+                ch = True
+                steps.append("records")
             if unroll_loops(repo, f, counter):
                 ch = True
                 steps.append("unroll")
